@@ -11,6 +11,19 @@ Arrive(id, out) ==
     /\ chance <= 0 => out = <<id>>        \* chance 0 forwards everything
     /\ chance >= 100 => out = <<>>        \* chance 100 or more forwards nothing
     /\ n' = n + 1 /\ d' = (IF out = <<>> THEN d + 1 ELSE d) /\ UNCHANGED chance
+\* Re-entrant use: the next NIC hands further datagrams to the filter while it is being handed one.
+\* arrs: the datagrams in the order they were handed in during one outermost call, out: what the
+\* next NIC received during it.  (Judged when the outermost call returns: forwarding may be deferred
+\* within it, but not reordered, repeated or lost.)
+RECURSIVE IsSubSeq(_, _)
+IsSubSeq(s, t) == IF s = <<>> THEN TRUE
+                  ELSE IF t = <<>> THEN FALSE
+                  ELSE IF Head(s) = Head(t) THEN IsSubSeq(Tail(s), Tail(t)) ELSE IsSubSeq(s, Tail(t))
+Reentrant(arrs, out) ==
+    /\ IsSubSeq(out, arrs)                \* in order, each at most once (ids are distinct), nothing else
+    /\ chance <= 0 => out = arrs
+    /\ chance >= 100 => out = <<>>
+    /\ n' = n + Len(arrs) /\ d' = d + Len(arrs) - Len(out) /\ UNCHANGED chance
 \* statistical clause as an integer monitor: |100 d - n c| <= 7 sigma, sigma^2 = n c (100 - c)
 \* evaluated as X <= 7 r with r = ceil(sqrt(n c (100 - c))) found by search (32-bit safe for n <= 20000)
 Abs(x) == IF x < 0 THEN -x ELSE x
